@@ -1,3 +1,5 @@
+//go:debug rsa1024min=0
+
 // Command dnssec binds spec/Dnssec.tla to RRSIG.Sign / RRSIG.Verify (property C10).
 //
 //	dnssec record <layout> <events.ndjson> <keys.json> <n>[+<nbig>] <alg,alg,...> <flipEvery> [onlyCase]
@@ -14,6 +16,7 @@
 package main
 
 import (
+	"bufio"
 	"crypto"
 	"crypto/ecdsa"
 	"crypto/ed25519"
@@ -24,6 +27,7 @@ import (
 	"crypto/sha256"
 	"crypto/sha512"
 	"crypto/x509"
+	"embed"
 	"encoding/asn1"
 	"encoding/base64"
 	"encoding/json"
@@ -260,11 +264,89 @@ func stdSignShort(alg int, priv crypto.Signer, data []byte, tag string) []byte {
 }
 
 var algByName = map[string]int{"RSASHA1": 5, "RSASHA256": 8, "RSASHA512": 10, "RSASHA256-2048": 8,
-	"ECDSAP256SHA256": 13, "ECDSAP384SHA384": 14, "ED25519": 15}
+	"ECDSAP256SHA256": 13, "ECDSAP384SHA384": 14, "ED25519": 15,
+	// RSA keys at the size limits of RFC 3110 (a modulus of 512 and of 4096 bits: 64 and 512 octets), each with public exponents
+	// of every length the DNSKEY format and crypto/rsa both take (1 .. 4 octets): <algorithm>-<bits>[e<exponent octets>].
+	// A 512-bit modulus cannot hold a PKCS#1 v1.5 SHA-512 signature, so algorithm 10 has none.
+	"RSASHA256-4096": 8, "RSASHA1-4096e1": 5, "RSASHA512-4096e4": 10, "RSASHA256-4096e2": 8, "RSASHA512-4096e1": 10, "RSASHA1-4096e4": 5,
+	"RSASHA256-512": 8, "RSASHA1-512e1": 5, "RSASHA256-512e4": 8, "RSASHA1-512e2": 5}
+
+//go:embed testdata/*.private
+var testdata embed.FS
+
+// boundaryKey: "RSASHA256-4096e1" -> (4096, 1, true); sizes that are generated afresh (…-2048) -> false
+func boundaryKey(name string) (bits, explen int, ok bool) {
+	_, sfx, found := strings.Cut(name, "-")
+	if !found {
+		return 0, 0, false
+	}
+	b, e, hasE := strings.Cut(sfx, "e")
+	bits, _ = strconv.Atoi(b)
+	explen = 3
+	if hasE {
+		explen, _ = strconv.Atoi(e)
+	}
+	return bits, explen, bits == 4096 || bits == 512
+}
+
+// fixedRSA: the committed key of that size (BIND private-key text; primes from crypto/rand: making a 4096-bit key takes
+// seconds), with the public exponent of the file (65537, three octets) or -- same primes -- the first odd number of the
+// wanted length in octets that is invertible modulo (p-1)(q-1).
+func fixedRSA(bits, explen int) *rsa.PrivateKey {
+	b, err := testdata.ReadFile(fmt.Sprintf("testdata/rsa-%d-e65537-1.private", bits))
+	if err != nil {
+		hx.Die("test data: %v", err)
+	}
+	m := map[string]*big.Int{}
+	sc := bufio.NewScanner(strings.NewReader(string(b)))
+	sc.Buffer(make([]byte, 1<<16), 1<<20)
+	for sc.Scan() {
+		if f, v, ok := strings.Cut(sc.Text(), ": "); ok {
+			if d, err := base64.StdEncoding.DecodeString(v); err == nil {
+				m[f] = new(big.Int).SetBytes(d)
+			}
+		}
+	}
+	p, q := m["Prime1"], m["Prime2"]
+	if p == nil || q == nil || m["Modulus"] == nil {
+		hx.Die("test data: no RSA key of %d bits", bits)
+	}
+	one := big.NewInt(1)
+	phi := new(big.Int).Mul(new(big.Int).Sub(p, one), new(big.Int).Sub(q, one))
+	e := big.NewInt(65537)
+	if explen != 3 {
+		e = big.NewInt(map[int]int64{1: 3, 2: 257, 4: 1<<24 + 1}[explen])
+		for new(big.Int).GCD(nil, nil, e, phi).Cmp(one) != 0 {
+			e.Add(e, big.NewInt(2))
+		}
+	}
+	if len(e.Bytes()) != explen {
+		hx.Die("no public exponent of %d octets for the %d-bit key", explen, bits)
+	}
+	k := &rsa.PrivateKey{PublicKey: rsa.PublicKey{N: m["Modulus"], E: int(e.Int64())}, D: new(big.Int).ModInverse(e, phi), Primes: []*big.Int{p, q}}
+	k.Precompute()
+	if err := k.Validate(); err != nil {
+		hx.Die("RSA key of %d bits, exponent %v: %v", bits, e, err)
+	}
+	if k.N.BitLen() != bits {
+		hx.Die("test data: modulus of %d bits, not %d", k.N.BitLen(), bits)
+	}
+	return k
+}
 
 func genPriv(name string) crypto.Signer {
 	var k crypto.Signer
 	var err error
+	if bits, explen, ok := boundaryKey(strings.TrimSuffix(name, "/other")); ok {
+		if strings.HasSuffix(name, "/other") { // another key of the same algorithm: any will do
+			k, err := rsa.GenerateKey(rand.Reader, 1024)
+			if err != nil {
+				hx.Die("key generation: %v", err)
+			}
+			return k
+		}
+		return fixedRSA(bits, explen)
+	}
 	switch name {
 	case "RSASHA1", "RSASHA256", "RSASHA512":
 		k, err = rsa.GenerateKey(rand.Reader, 1024)
@@ -358,6 +440,8 @@ type event struct {
 	KeyName  string `json:"keyname"`
 	Otherkey bool   `json:"otherkey"` // forge: the signature is made with the case's private key although `key' is another key (sigok false is expected)
 	Signer   string `json:"signer"`   // "" | "ecdsa-short-r1" ...: how the signature was (or is to be) made
+	// sign: "" | what the RRSIG value had been through before this call (reuseKinds); req is then the value as it was handed to Sign
+	Reused string `json:"reused"`
 	Data     hx.B   `json:"data"`
 	Odata    hx.B   `json:"odata"` // the specification's octets and the real signature of the sign event this variant derives from
 	Osig     hx.B   `json:"osig"`
@@ -1195,7 +1279,11 @@ func record(out, keysPath string, n, nbig int, algs []string, flipEvery, only in
 	privs := map[string]crypto.Signer{}
 	for _, a := range algs {
 		privs[a] = genPriv(a)
-		privs[a+"/other"] = genPriv(a)
+		if _, _, fixed := boundaryKey(a); fixed {
+			privs[a+"/other"] = genPriv(a + "/other")
+		} else {
+			privs[a+"/other"] = genPriv(a)
+		}
 	}
 	saveKeys(keysPath, privs)
 	for i := 0; i < n; i++ {
@@ -1253,8 +1341,12 @@ func (rc *recorder) one(ci int, c *caseT, alg string, privs map[string]crypto.Si
 		p := hx.Catch(func() { e = sg.Sign(signer, set) })
 		return sg, e, p
 	}
-	if c.big == 0 {
+	_, _, boundary := boundaryKey(alg)
+	if c.big == 0 && !boundary { // (a 4096-bit signature takes too long to be made a thousand times over)
 		rc.special(ci, c, alg, priv, key, req, doSign)
+	}
+	if c.big == 0 {
+		rc.reused(ci, c, alg, priv, key, req, set)
 	}
 	sig, err, pan := doSign(req, priv)
 	if pan != "" {
@@ -1343,6 +1435,61 @@ func (rc *recorder) bigVariants(of, ci int, c *caseT, alg string, sig, key *rec)
 	f.F["Signature"] = []interface{}{}
 	chk("forge", f, base, true)
 	chk("forge-shuffled", f, append(cloneSet(base)[n/2:], cloneSet(base)[:n/2]...), true)
+}
+
+// reused: Sign on an RRSIG value that is not fresh.  The natural way to sign a zone is one RRSIG value filled in once -- key tag,
+// signer, algorithm, validity -- and handed to Sign for one RRset after the other; after the first call it carries the owner,
+// class, covered type, LABELS, (original TTL) and signature of the RRset before.  What Sign produces is a function of the RRset and
+// of the fields the caller sets (spec: SignFills takes nothing else from req but OrigTtl, which the library documents as a
+// caller's field) -- so the RRset before is chosen to differ in everything else: an owner with MORE labels ("deeper"), one with
+// FEWER ("shallower": an ancestor of the owner inside the zone, else deeper again), another type and TTL; "preset": a value
+// filled in by hand with the largest field values instead.  req of the event = the value as it is handed to the call under test.
+var reuseKinds = []string{"deeper", "shallower", "preset"}
+
+func (rc *recorder) reused(ci int, c *caseT, alg string, priv crypto.Signer, key, req *rec, set []dns.RR) {
+	kind := reuseKinds[ci%len(reuseKinds)]
+	sg := goSig(req)
+	sg.Hdr = dns.RR_Header{}
+	if kind == "preset" {
+		sg.Hdr = dns.RR_Header{Name: "Some.Other.owner.example.", Rrtype: dns.TypeRRSIG, Class: dns.ClassCHAOS, Ttl: 5, Rdlength: 9}
+		sg.TypeCovered, sg.Labels = dns.TypeANY, 255
+		sg.Signature = base64.StdEncoding.EncodeToString([]byte("left over from elsewhere"))
+	} else {
+		wo := append(name{[]byte("x"), []byte("Y")}, c.owner...)
+		if kind == "shallower" && len(c.owner) > len(c.zone) && len(c.owner) >= 2 {
+			wo = c.owner[len(c.owner)-max(len(c.zone), 1):] // the apex (a one-label name under the root zone)
+		}
+		wt := 16 // TXT; the RRset under test is of another type
+		if c.t == 16 {
+			wt = 1
+		}
+		wg := &gen{mrand.New(mrand.NewSource(hx.Seed()*31337 + int64(ci)))}
+		wrr := wire.RR{Name: toB(wo), Type: wt, Class: 1, Ttl: be32(77), F: wg.fields(wt, c.zone, false)}
+		var werr error
+		if p := hx.Catch(func() { werr = sg.Sign(priv, goSet([]wire.RR{*clone(&wrr)}, "")) }); p != "" || werr != nil {
+			rc.counts["reuse-first-sign-failed"]++ // judged where such an RRset is the subject
+			return
+		}
+		if ci%2 == 0 { // the caller sets the original TTL again (0: "take the RRset's") or leaves what the value holds
+			sg.OrigTtl = c.origT
+		}
+	}
+	rq := projSig(sg)
+	var err error
+	pan := hx.Catch(func() { err = sg.Sign(priv, set) })
+	if pan != "" {
+		rc.sum.Mis("dnssec/sign-panic:reused-sig-struct", "Sign panicked: "+pan, map[string]interface{}{"case": ci, "alg": alg})
+		return
+	}
+	ev := &event{Ev: "sign", Alg: alg, Case: ci, Rrset: c.rrset, Key: key, Req: rq, Ok: err == nil, KeyName: alg, Kind: "reused-" + kind, Reused: kind}
+	if err != nil {
+		ev.Err, ev.Out = err.Error(), rq
+		rc.emit(ev)
+		return
+	}
+	ev.Out = projSig(sg)
+	of := rc.emit(ev)
+	rc.emit(&event{Ev: "check", Of: of, Kind: "reused-" + kind, Alg: alg, Case: ci, Rrset: c.rrset, Key: key, Sig: ev.Out, KeyName: alg})
 }
 
 // special: signatures whose integers have leading zero octets, the corner of the fixed-width encodings (RFC 6605 s.4,
